@@ -2,7 +2,7 @@
 # tools/vet_seed.sh <PROP> <variant> : independent confirmation of a seeded defect in the scratch worktree /tmp/wt/<PROP>
 #  1. demo passes on the clean worktree, 2. fails with the patch, 3. pinned suite: all BASELINE stable_pass tests still pass.
 # Writes /verif/seeded/<PROP>-<variant>/{patch.diff,demo.py,notes.md,vet.json}
-P="$1"; V="$2"; WT=/tmp/wt/$P; SRC=$WT/seed_out/$V; OUT=/verif/seeded/$P-$V
+P="$1"; V="$2"; WT=${WT:-/tmp/wt/$P}; SRC=$WT/seed_out/$V; OUT=/verif/seeded/$P-${NAME:-$V}
 mkdir -p "$OUT"
 cd $WT || exit 9
 git checkout -q -- . 
